@@ -663,6 +663,73 @@ func (p *c08prop) Run(c *core.Case, st *core.Stats) []core.Violation {
 			st.Inc("streams_after_wrapped_reset")
 		}
 	}
+	// 2d. a WrappedParser that finished a stream and was Reset stays in use
+	// while a second one (new parser, same configuration) serves a stream of its
+	// own: block by block in turns, each must deliver exactly its reader's bytes
+	if len(cc.Chunks) >= 4 && len(cc.Stream) <= 100000 && c.Idx%2 == 0 {
+		type side struct {
+			wp   *lz.WrappedParser
+			rd   *wrapReader
+			dec  []byte
+			done bool
+			blk  lz.Block
+			name string
+		}
+		psA, _ := NewParserFor(cc.Cfg)
+		rd0 := &wrapReader{data: cc.Stream, pFrom: -1, pTo: -1}
+		wpA := lz.Wrap(rd0, psA.P)
+		if _, class, msg := driveWrap(wpA, cc, rd0, rd0, st, -1); class != "" {
+			return viol(class, "first stream of the first of two WrappedParsers", msg)
+		}
+		dataA := append(append([]byte{}, cc.Stream[len(cc.Stream)/3:]...), cc.Stream...)
+		dataB := append(append([]byte{}, cc.Stream[len(cc.Stream)/2:]...), cc.Stream[:len(cc.Stream)/2]...)
+		a := &side{rd: &wrapReader{data: dataA, steps: cc.Chunks[1], pFrom: -1, pTo: -1}, name: "the reused WrappedParser"}
+		if pv := call(func() { wpA.Reset(a.rd) }); pv != nil {
+			return viol("panic", "WrappedParser.Reset", fmtPanic(pv))
+		}
+		a.wp = wpA
+		psB, _ := NewParserFor(cc.Cfg)
+		b := &side{rd: &wrapReader{data: dataB, steps: cc.Chunks[2], pFrom: -1, pTo: -1}, name: "the second WrappedParser"}
+		b.wp = lz.Wrap(b.rd, psB.P)
+		for turn := 0; !(a.done && b.done); turn++ {
+			if turn > 2*(len(dataA)+len(dataB))+2000 {
+				return viol("no-progress", "two WrappedParsers in turns", "the streams do not end")
+			}
+			s := a
+			if turn%2 == 1 {
+				s = b
+			}
+			if s.done {
+				continue
+			}
+			poisonBlock(&s.blk)
+			var n int
+			var perr error
+			if pv := call(func() { n, perr = s.wp.Parse(&s.blk, cc.Flags) }); pv != nil {
+				return viol("panic", s.name+" (two WrappedParsers in turns)", fmtPanic(pv))
+			}
+			switch {
+			case perr == io.EOF:
+				s.done = true
+				if !bytes.Equal(s.dec, s.rd.data) {
+					return viol("eof-before-all-delivered", s.name+" (two WrappedParsers with the same configuration used in turns)", fmt.Sprintf("io.EOF after %d of %d bytes were delivered (common prefix %d)", len(s.dec), len(s.rd.data), commonPrefix(s.dec, s.rd.data)))
+				}
+			case perr != nil:
+				return viol("foreign-error", s.name+" (two WrappedParsers in turns)", fmt.Sprintf("Parse returned %v", perr))
+			default:
+				nd, xerr := ref.Expand(s.dec, s.blk.Sequences, s.blk.Literals)
+				if xerr != nil {
+					return viol("unexpandable-block", s.name+" (two WrappedParsers in turns)", xerr.Error())
+				}
+				s.dec = nd
+				handed := s.rd.data[:s.rd.pos]
+				if n <= 0 || len(s.dec) > len(handed) || !bytes.Equal(s.dec, handed[:len(s.dec)]) {
+					return viol("blocks-differ-from-reader-bytes", s.name+" (two WrappedParsers with the same configuration used in turns)", fmt.Sprintf("after %d bytes the expansion is not a prefix of the %d bytes its reader handed out (common prefix %d)", len(s.dec), len(handed), commonPrefix(s.dec, handed)))
+				}
+			}
+		}
+		st.Inc("wrapped_parser_pairs_used_in_turns")
+	}
 	// 3. seeded random fault plan
 	{
 		rd := &wrapReader{data: cc.Stream, steps: cc.Faulty, pFrom: -1, pTo: -1}
@@ -732,5 +799,5 @@ func init() {
 	core.Register(&c08prop{base{id: "C08", level: "fault_enumeration",
 		rule:        "for every generated (configuration of one of the 7 parsers with ShrinkSize < BufferSize <= 200, input of length 0..5*BufferSize incl. exact multiples of BlockSize/BufferSize) the wrapped parser is run (1) with full reads (reference block sequence, EOF repeated 3 times), (2) under 4 chunkings (single bytes, random short reads, short reads mixed with (0,nil) reads, data returned together with io.EOF) and, for a quarter of the cases, under ten readers of other dynamic types from the standard library (bytes/strings readers, bufio, MultiReader of LimitReader and plain struct readers, iotest One-byte/Half/DataErr readers, TeeReader) whose block sequences must equal the reference; 'big' cases repeat this with buffers beyond 64 KiB and the default configuration on inputs of 300-700 kB, (3) under a seeded random multi-fault plan (errors with and without data, optionally a reader that fails persistently for 40 calls), and (4) for inputs <= 400 bytes ALL single fault placements over the first 50 reader calls x {error without data, error with data} and for <= 14 reader calls all double placements x 4 combinations; a recording reader decides what was handed out; non-trivial iff the stream produced at least one block; distinct = distinct concrete case",
 		assumptions: []string{"a one-shot reader error that arrives together with data may be swallowed by Wrap (the property only constrains when an error may be returned)", "io.EOF is signalled by the reader only when its data is exhausted"},
-		mandatory:   []string{"streams_completed", "chunkings_compared", "standard_library_readers_compared", "single_fault_placements", "double_fault_placements", "reader_errors_surfaced", "streams_longer_than_buffer", "streams_multiple_of_buffersize", "persistent_failure_plans", "streams_with_several_blocks", "streams_after_wrapped_reset", "streams_around_capacity_steps", "streams_with_more_than_256_reader_failures", "streams_of_more_than_4MiB"}}})
+		mandatory:   []string{"streams_completed", "chunkings_compared", "standard_library_readers_compared", "single_fault_placements", "double_fault_placements", "reader_errors_surfaced", "streams_longer_than_buffer", "streams_multiple_of_buffersize", "persistent_failure_plans", "streams_with_several_blocks", "streams_after_wrapped_reset", "streams_around_capacity_steps", "streams_with_more_than_256_reader_failures", "streams_of_more_than_4MiB", "wrapped_parser_pairs_used_in_turns"}}})
 }
